@@ -47,7 +47,8 @@ def _run_fake(case, tags_all, tags_branch, d):
     proj = project.Project(os.path.join(d, "p"), gitfile=(len(case["all"]) % 3 == 1))       # some projects are linked worktree / submodule checkouts (.git is a file)
     fv = fakevcs.FakeVCS(os.path.join(d, "fake"))
     fv.set(tags=tags_all, tags_branch=tags_branch, status="", remote="", branches="")
-    proj.write("bumpver.toml", project.bumpver_toml(case["cfgver"], case["pat"], [("f.txt", ["{version}"])], extra={"tag_scope": case["scope"]}))
+    k = len(case["all"]) + len(case["cfgver"])
+    proj.write(*project.config_file(["bumpver.toml", "bumpver.toml", "setup.cfg", "pyproject.toml"][k % 4], case["cfgver"], case["pat"], [("f.txt", ["{version}"])], extra={"tag_scope": case["scope"]}, variant=k // 4))
     proj.write("f.txt", "v %s\n" % case["cfgver"])
     r1 = drive.cli(["show", "--no-fetch"] + (["--ignore-vcs-tag"] if case["ignore"] else []), cwd=proj.root, env=fv.env())
     shown = None
